@@ -267,6 +267,9 @@ impl Exec {
                 guarded(move || drop(old))?;
             }
             Step::IfGt { cond, elem, thr, target, then_, else_ } => {
+                if *elem >= self.get(*cond).values().len() {
+                    return Err(format!("{}: the branch condition indexes element {} of an array with {} elements", HARNESS_DISCARD, elem, self.get(*cond).values().len()));
+                }
                 let v = self.get(*cond).values()[*elem] as f64;
                 let spec = if v > *thr { Some(then_) } else { else_.as_ref() };
                 if let Some(spec) = spec {
